@@ -15,7 +15,18 @@ theorem C09_clean (a : Acc) (s : List Char) (v : Int) (k : Nat) (chk : Option (L
     (indel : Bool) (heap : Nat) (hw : isWalk a v s = true) :
     ∃ b st, vtMatches s chk = .ok b ∧
       repairDna a s v k chk indel heap = .ok (if b then [s] else [], st) ∧ st.detected = 0 := by
-  sorry
+  obtain ⟨sc, hsc, hd, hc, hm, hsp, hv, -, -⟩ := scan_clean a k s v hw
+  obtain ⟨b, hb⟩ := vtMatches_ok (isWalk_isAcgt a s v hw) chk
+  have hf : fragFold a k s indel sc = .ok ([], sc.visited) := by
+    simp [fragFold, hc, hm, pure, Except.pure]
+  rw [repairDna_of_scan hsc hf]
+  by_cases hh : heap = 0
+  · refine ⟨b, ⟨0, !b, 0, sc.visited⟩, hb, ?_, rfl⟩
+    cases b <;> simp [repairTail, fragCount, hh, hb, Except.bind, pure, Except.pure]
+  · refine ⟨b, ⟨0, !b, 1, sc.visited⟩, hb, ?_, rfl⟩
+    cases b <;>
+      simp [repairTail, fragCount, hh, product, candOf, hsp, hb, hd, bind, Except.bind, Except.map,
+        pure, Except.pure, List.mapM_cons, isort, insertSorted, List.eraseDups_cons]
 
 /-- whenever the repair returns, for any input, the candidate list is strictly increasing in
 Python string order (sorted and duplicate-free). -/
@@ -23,14 +34,37 @@ theorem C09_sorted_nodup (a : Acc) (s : List Char) (v : Int) (k : Nat) (chk : Op
     (indel : Bool) (heap : Nat) (cands : List (List Char)) (st : RepairStats)
     (h : repairDna a s v k chk indel heap = .ok (cands, st)) :
     cands.Pairwise strLt := by
-  sorry
+  obtain ⟨sc, fv, -, -, ht⟩ := repairDna_ok_inv h
+  rcases repairTail_ok_inv ht with ⟨okc, -, e, -⟩ | ⟨checked, -, e, -⟩
+  · simp only at e; subst e; cases okc <;> simp
+  · simp only at e; subst e; exact isort_eraseDups_pairwise _
 
 /-- whenever the repair returns and a check was supplied, every candidate reproduces it. -/
 theorem C09_check (a : Acc) (s : List Char) (v : Int) (k : Nat) (c : List Char)
     (indel : Bool) (heap : Nat) (cands : List (List Char)) (st : RepairStats)
     (h : repairDna a s v k (some c) indel heap = .ok (cands, st)) :
     ∀ x ∈ cands, setVt x c.length = .ok c := by
-  sorry
+  obtain ⟨sc, fv, -, -, ht⟩ := repairDna_ok_inv h
+  rcases repairTail_ok_inv ht with ⟨okc, hv, e, -⟩ | ⟨checked, hm, e, -⟩
+  · simp only at e; subst e
+    intro x hx
+    cases okc with
+    | false => simp at hx
+    | true => simp at hx; subst hx; exact vtMatches_some_true hv
+  · simp only at e; subst e
+    intro x hx
+    rw [mem_isort, List.mem_eraseDups, List.mem_map] at hx
+    obtain ⟨⟨x', b⟩, hxb, rfl⟩ := hx
+    rw [List.mem_filter] at hxb
+    obtain ⟨hmem, hb⟩ := hxb
+    simp only at hb; subst hb
+    obtain ⟨y, -, hy⟩ := mapM_ok_mem _ _ _ hm _ hmem
+    cases hv : vtMatches y (some c) with
+    | error e => simp [hv, Except.map] at hy
+    | ok b =>
+      simp [hv, Except.map] at hy
+      obtain ⟨rfl, rfl⟩ := hy
+      exact vtMatches_some_true hv
 
 example : isWalk gcBalanced2 1 "TCTCTCTCTCTC".toList = true := by decide +kernel
 example : repairDna gcBalanced2 "TCTCTATCTCTC".toList 1 2 none true 1000 =
